@@ -127,7 +127,11 @@ func VerifH03bBasicAuthGate() {
 	protected := inside(res)
 	excluded := false
 	for _, e := range excl {
-		if zzUnder(R, e, sensitive) {
+		// casket's rule paths are prefix matches by design (basicauth /a also covers /ab): an exclude
+		// /a/b therefore also takes /a/ba out of the protected area. The statement speaks of "excluded
+		// sub-paths" without fixing the matching rule, so the oracle uses the product's own: the
+		// cleaned request path begins with the cleaned exclude.
+		if strings.HasPrefix(zzFold(R, sensitive), zzFold(path.Clean(e), sensitive)) {
 			excluded = true
 		}
 	}
